@@ -8,8 +8,8 @@ echo "--- suite with change"
 cargo test --offline --lib -j8 2>&1 | grep -E "^test result|\.\.\. FAILED" | head -5
 echo "--- demo with change (expected: FAIL)"
 cargo test --offline --test mut_demo -j8 2>&1 | grep -E "^test result|panicked|FAILED" | head -4
-git stash -q -- src
+git diff -- src > /tmp/confirm.$$.diff; git apply -R /tmp/confirm.$$.diff
 echo "--- demo without change (expected: pass)"
 cargo test --offline --test mut_demo -j8 2>&1 | grep -E "^test result|panicked|FAILED" | head -4
-git stash pop -q
+git apply /tmp/confirm.$$.diff; rm -f /tmp/confirm.$$.diff
 git status --short | head -5
